@@ -2,7 +2,8 @@
 parser knows, with dialect constructs, letter-case / layout / quoting variation, and a separate
 malformed stream (prefixes, token deletion / duplication / swap / replacement, soups, nesting)."""
 
-NAMES = ["a", "b", "c", "t1", "x_1", "`k y`", "`select`", "col", "id", "dt", "`a.b`", "é1", "`ke``y`"]
+NAMES = ["a", "b", "c", "t1", "x_1", "`k y`", "`select`", "col", "id", "dt", "`a.b`", "é1", "`from`", "_u", "A1"]
+NAMES_WILD = ["`ke``y`", "select", "from", "1a", "a-b"]
 TABLES = ["t", "s.t", "`t`", "`s`.`t`", "u", "`s.t`", "db1.tbl_2", "w"]
 LITS = ["1", "2.5", "'s'", "NULL", "TRUE", "false", "x'1F'", "b'01'", "\"d\"", "0", "007", "'a''b'", "'it\\'s'", "12345678901234567890",
         "'--c'", "'/*x*/'", "'a;b'", "'(x'", "''", "'a==b'", "'CURRENT DATE'", "'a\tb'", "'é'", "3", "10", "'x y'", "null", "True"]
@@ -34,7 +35,7 @@ class Gen:
     def ch(self, xs): return self.r.choice(xs)
     def p(self, x): return self.r.chance(x)
     def n(self, lo, hi): return lo + self.r.below(hi - lo + 1)
-    def nm(self): return self.ch(NAMES)
+    def nm(self): return self.w(NAMES, NAMES_WILD)
     def lit(self): return self.w(LITS, LITS_WILD)
 
     def kw(self, s):
@@ -76,7 +77,9 @@ class Gen:
         return self.ch([self.nm(), self.lit()])
 
     def unary(self, d):
-        if self.p(0.12): return self.w(["-", "+", "~", "!", "- ", "+ "], ["-", "--", "!!"]) + self.elem(d + 1) if not self.p(0.2) else self.ch(["- ", "~", "+"]) + self.unary(d + 1)
+        if self.p(0.12):
+            ops = ["-", "+", "~", "- ", "+ "] + ([] if self.d == "HIVE" else ["!"])
+            return self.w(ops, ["-", "--", "!!", "!"]) + self.elem(d + 1) if not self.p(0.2) else self.ch(["- ", "~", "+"]) + self.unary(d + 1)
         return self.elem(d)
 
     def expr(self, d=0):
@@ -110,11 +113,12 @@ class Gen:
         return s
 
     # -- queries ---------------------------------------------------------------------------------------
-    def tref(self, d):
+    def tref(self, d, need_alias=False):
         x = self.r.below(100)
-        if x < 62 or d > 2: return self.ch(TABLES) + self.ch(["", "", " x", " AS y", " as `z z`"])
-        if x < 90: return "(" + self.query(d + 1) + ") " + self.ch(["q", "AS q", "", "as q2"])
-        return "(" + self.ch(TABLES) + self.w([""], [" junk", " a b"]) + ")" + self.ch(["", " x"])
+        al = [" x", " AS y", " as `z z`"] if need_alias else ["", "", " x", " AS y", " as `z z`"]
+        if x < 62 or d > 2: return self.ch(TABLES) + self.ch(al)
+        if x < 90: return "(" + self.query(d + 1) + ")" + self.ch([" q", " AS q", " as q2"] if need_alias else [" q", " AS q", "", " as q2"])
+        return "(" + self.ch(TABLES) + self.w([""], [" junk", " a b"]) + ")" + self.ch([" x"] if need_alias else ["", " x"])
 
     def select(self, d=0):
         s = self.kw("SELECT") + " " + self.ch(["", "", "DISTINCT ", "distinct "]) + ", ".join(
@@ -125,9 +129,8 @@ class Gen:
                 s += " LATERAL VIEW " + self.ch(["", "OUTER "]) + "explode(" + self.nm() + ") v AS " + self.ch(["x1", "x1, x2"])
             for _ in range(self.ch([0, 0, 1, 2])):
                 rule = self.ch(["", " ON " + self.cond(d + 1), " USING(a, b)", " on " + self.cond(d + 1), " using(a)"])
-                tr = self.tref(d)
-                if rule.lower().startswith(" using") and not self.wild and tr.endswith((")", "t", "`", "u", "w", "2")):
-                    tr += " j1"     # without an alias the parser takes USING as the alias
+                # without an alias the parser takes USING as the alias (C03 finding), so the valid stream always gives one
+                tr = self.tref(d, need_alias=rule.lower().startswith(" using") and not self.wild)
                 s += (" " + self.ch(["JOIN", "INNER JOIN", "LEFT JOIN", "LEFT OUTER JOIN", "RIGHT JOIN", "FULL OUTER JOIN", "CROSS JOIN", "LEFT SEMI JOIN",
                                       "RIGHT OUTER JOIN", "FULL JOIN", "join", "left join", "RIGHT SEMI JOIN"]) + " " + tr + rule)
             if self.p(0.5): s += " " + self.kw("WHERE") + " " + self.cond(d + 1)
@@ -138,10 +141,12 @@ class Gen:
             if self.p(0.3):
                 s += " " + self.kw("ORDER") + " BY " + ", ".join(self.expr(d + 2) + self.ch(["", " ASC", " DESC", " desc"]) + self.w(["", "", " NULLS FIRST", " NULLS LAST", " nulls last"], [" NULLS FIRST NULLS LAST", " NULLS"]) for _ in range(self.n(1, 2)))
             if self.d == "HIVE" or (self.wild and self.p(0.3)):
+                if not self.wild and not any(k in s.upper().rsplit(" FROM ", 1)[-1] for k in (" WHERE ", " GROUP BY ", " HAVING ", " ORDER BY ")):
+                    s += " WHERE 1 = 1"     # a bare table reference would take SORT / DISTRIBUTE / CLUSTER as its alias
                 if self.p(0.1): s += " SORT BY " + self.expr(d + 2) + self.ch(["", " DESC"])
                 if self.p(0.1): s += " DISTRIBUTE BY " + self.expr(d + 2)
                 if self.p(0.1): s += " CLUSTER BY " + self.expr(d + 2) + self.ch(["", ", b"])
-            if self.p(0.3): s += " " + self.kw("LIMIT") + " " + self.w(["5, 10", "10 OFFSET 5", "10", "1", "0,1", "10 offset 0", "+3", "007"], ["x", "1.5", "'3'", "", "-1", "1,", "1 OFFSET"])
+            if self.p(0.3): s += " " + self.kw("LIMIT") + " " + self.w(["5, 10", "10 OFFSET 5", "10", "1", "0,1", "10 offset 0", "3", "007"], ["x", "1.5", "'3'", "", "-1", "1,", "1 OFFSET", "+3"])
         if d > 0 and self.p(0.05): s = "(" + s + ")"
         if self.wild and self.p(0.03): s = "(" + s + ")"
         if self.wild and self.p(0.02): s = "((" + s + "))"
